@@ -10,6 +10,10 @@ CONSTANTS
   NotifyPop = TRUE
   ReleaseOnEnd = TRUE
   Faults = TRUE
+  StopAfterSend = TRUE
+  CleanupOnDisc = TRUE
+  MaxSendFail = 1
+  Family = "none"
   MaxOps = 8
   MaxCancel = 3
   Depth = 28
